@@ -45,3 +45,12 @@ def c04_bitmask_truncates(f) -> bool:
         return False
     from vlib.checks import c04
     return not c04.eval_case(_strip_key(core.plain(f.case), "mask", drop=True))
+
+
+@predicate("c03_nrc_const_not_reencodable")
+def c03_nrc_const_not_reencodable(f) -> bool:
+    """nrcconstparameter.py: decode reports the value found at an NRC-CONST parameter, encode rejects any
+    value for it ("cannot be set directly"), so a decoded negative response cannot be re-encoded as is."""
+    return (f.clause in ("reencode-raises", "service-reencode-raises")
+            and "NRC-CONST parameters cannot be set directly" in f.detail
+            and "nrc" in (f.features.get("features") or []))
